@@ -323,20 +323,35 @@ def sd8c(F, R):
         rets = [fn.term_of_rvalue(s["rv"], b) for b, i, s in fn.stmts() if s["k"] == "Assign" and s["p"]["l"] == 0 and not s["p"]["proj"]]
         return rets[0] if len(rets) == 1 else None
 
-    ds = ("call", "device_size", "_")
-    mult = lambda k, op: ("bin", op, ("bin", "Add", ("call", "device_size_multiplier", "_"), ("call", "read_block_length", "_")), ("c", k))
-    t = ret_term(v1b)
-    ok = t is not None and tmatch(t, ("bin", "Shl", ("bin", "Add", ("call", "From::from", [ds]), ("c", 1)), mult(2, "Add"))) is not None
-    R.require(ok, v1b, "v1-bytes", "CsdV1 bytes must be (u64(C_SIZE)+1) << (C_SIZE_MULT + READ_BL_LEN + 2); got %s" % (tstr(t) if t else None), v1b.loc(0))
-    t = ret_term(v1k)
-    ok = t is not None and tmatch(t, ("bin", "Shl", ("bin", "Add", ds, ("c", 1)), mult(7, "Sub"))) is not None
-    R.require(ok, v1k, "v1-blocks", "CsdV1 blocks must be (C_SIZE+1) << (C_SIZE_MULT + READ_BL_LEN - 7); got %s" % (tstr(t) if t else None), v1k.loc(0))
-    t = ret_term(v2b)
-    ok = t is not None and tmatch(t, ("bin", "Mul", ("bin", "Mul", ("bin", "Add", ("call", "From::from", [ds]), ("c", 1)), ("c", 512)), ("c", 1024))) is not None
-    R.require(ok, v2b, "v2-bytes", "CsdV2 bytes must be (u64(C_SIZE)+1) * 512 * 1024; got %s" % (tstr(t) if t else None), v2b.loc(0))
-    t = ret_term(v2k)
-    ok = t is not None and tmatch(t, ("bin", "Mul", ("bin", "Add", ds, ("c", 1)), ("c", 1024))) is not None
-    R.require(ok, v2k, "v2-blocks", "CsdV2 blocks must be (C_SIZE+1) * 1024; got %s" % (tstr(t) if t else None), v2k.loc(0))
+    from .poly import peq, ADD, SUB, MUL, C
+    from .mir import subterms, strip_refs
+
+    def atom(t, name):
+        for q in subterms(t):
+            if q[0] == "call" and q[1] and q[1].split("::")[-1] == name:
+                return q
+        return None
+
+    def v1(fn, key, k, what):
+        t = ret_term(fn)
+        ok = False
+        if t is not None:
+            t = strip_refs(t)
+            d, m, r = atom(t, "device_size"), atom(t, "device_size_multiplier"), atom(t, "read_block_length")
+            if t[0] == "bin" and t[1] == "Shl" and d is not None and m is not None and r is not None:
+                amount = ADD(ADD(m, r), C(k)) if k >= 0 else SUB(ADD(m, r), C(-k))
+                ok = peq(t[2], ADD(d, C(1))) and peq(t[3], amount)
+        R.require(ok, fn, key, "%s; got %s" % (what, tstr(t) if t else None), fn.loc(0))
+
+    def v2(fn, key, factor, what):
+        t = ret_term(fn)
+        d = atom(t, "device_size") if t is not None else None
+        ok = t is not None and d is not None and peq(t, MUL(ADD(d, C(1)), C(factor)))
+        R.require(ok, fn, key, "%s; got %s" % (what, tstr(t) if t else None), fn.loc(0))
+    v1(v1b, "v1-bytes", 2, "CsdV1 bytes must be (u64(C_SIZE)+1) << (C_SIZE_MULT + READ_BL_LEN + 2)")
+    v1(v1k, "v1-blocks", -7, "CsdV1 blocks must be (C_SIZE+1) << (C_SIZE_MULT + READ_BL_LEN - 7)")
+    v2(v2b, "v2-bytes", 512 * 1024, "CsdV2 bytes must be (u64(C_SIZE)+1) * 512 * 1024")
+    v2(v2k, "v2-blocks", 1024, "CsdV2 blocks must be (C_SIZE+1) * 1024")
 
 
 # ---------------------------------------------------------------------------------------
@@ -583,9 +598,22 @@ def _parser_table(F, R, fn, step, has_dot, tier_full):
     idxs = range(0, 12) if tier_full else (0, 1, 7, 8, 9, 10, 11)
     n = 0
     bad = []
+    # parser states that can occur at all: the closure of (idx 0, no dot) under the *specified* step.  Agreement with the
+    # specification on these rows gives, by induction over the characters, the same states and the same result for every
+    # name; what the code would do in a state no name can produce (a dot seen at idx < 8) is not part of its behaviour.
+    reach, work = {(0, False)}, [(0, False)]
+    while work:
+        i0, d0 = work.pop()
+        for ch in reps:
+            w = step(ch, i0, d0)
+            if w[0] == "ok" and (w[1], w[2]) not in reach:
+                reach.add((w[1], w[2]))
+                work.append((w[1], w[2]))
     for ch in reps:
         for idx in idxs:
             for sd in ((0, 1) if has_dot else (0,)):
+                if (idx, bool(sd)) not in reach:
+                    continue
                 I = Interp(F, mode="bv")
                 st = State()
                 contents = arr([sym_int(I.vars, "c%d" % k, 8) for k in range(11)])
